@@ -1,6 +1,7 @@
 from propsdef import KERNEL, CORR, HARNESS
 
 PROP = {
+    "uses_generated": True,
     "needs_binary": True,
     "obligations": [
         "Xt.Props.C04Sites.sites_covered_library",
